@@ -26,7 +26,7 @@ def mask_raw(m):
 class C04(Prop):
     id = "C04"
     prop_file = "Props/C04"
-    level = "other"
+    level = "proof"
     binary_cases = True
     quick_n = 2500
     thorough_n = 60000
